@@ -27,7 +27,7 @@ var t24501Extra8321 = map[int64]int64{
 }
 
 func c12(c *core.Ctx) map[string]interface{} {
-	c.Explanation = "Static table/offset/termination check of the hand-written extractors in stgutg/pdu.go (C12). Decided: (R12.tab) the optional-IE length table and the half-octet list of DecodePDUSessionNASPDU agree, row by row, with the library's own PDU SESSION ESTABLISHMENT ACCEPT codec (IEI, fixed size resp. one/two length octets - the writer's and the reader's tables agree) and with TS 24.501 table 8.3.2.1.1 for the five IEIs the library does not know; (R12.off) every fixed offset, expressed as a linear form so that regrouping constants does not matter, equals the layout computed from the library's message definitions: 7-octet security header, DL NAS TRANSPORT payload-container length at octet 4, QoS-rules length at octet 5 of the Accept, optional part starting 14 + QoS-rules length octets in, PDU address value at IEI+3..IEI+7 and matched by the library's IEI 0x29; in the transfer walk the IE id is compared with ProtocolIEIDULNGUUPTNLInformation at IE-aligned positions (start 3, stride id 2 + criticality 1 + length 1 + length), TEID = last 4 octets and address = the 4 octets before; (R12.term) on every path through both loops the index strictly increases or the loop is left (lower bounds from an interval analysis that models wrap-around of narrow integer arithmetic). NOT decided: equality of the returned values for all network encodings (e.g. a length determinant above 127 in the transfer), behaviour on truncated input (a panic terminates); R12.pos (positional access List[2]) is informational."
+	c.Explanation = "Static table/offset/termination check of the hand-written extractors in stgutg/pdu.go (C12). Decided: (R12.tab) the optional-IE length table and the half-octet list of DecodePDUSessionNASPDU agree, row by row, with the library's own PDU SESSION ESTABLISHMENT ACCEPT codec (IEI, fixed size resp. one/two length octets - the writer's and the reader's tables agree) and with TS 24.501 table 8.3.2.1.1 for the five IEIs the library does not know; (R12.off) every fixed offset, expressed as a linear form so that regrouping constants does not matter, equals the layout computed from the library's message definitions: 7-octet security header, DL NAS TRANSPORT payload-container length at octet 4, QoS-rules length at octet 5 of the Accept, optional part starting 14 + QoS-rules length octets in, PDU address value at IEI+3..IEI+7 and matched by the library's IEI 0x29; in the transfer walk the IE id is compared with ProtocolIEIDULNGUUPTNLInformation at IE-aligned positions (start 3, stride id 2 + criticality 1 + length 1 + length), TEID = last 4 octets and address = the 4 octets before; (R12.term) on every path through both loops the index strictly increases or the loop is left (lower bounds from an interval analysis that models wrap-around of narrow integer arithmetic). (R2.report) EstablishPDU hands the PDU Session NAS-PDU and the transfer of item 0 of the received setup list - and nothing else - to the two extractors and returns their results, which main registers with the data plane. NOT decided: equality of the returned values for all network encodings (e.g. a length determinant above 127 in the transfer), behaviour on truncated input (a panic terminates); R12.pos (positional access List[2]) is informational."
 	c.Assumptions = []string{"the Accept is carried in a protected DL NAS TRANSPORT as payload container (the emulator's use)", "APER encoding of the transfer: 1 preamble octet + 2-octet container length, each IE = id(2) criticality(1) length(1, < 128) value"}
 	m := buildNasModel(c)
 	r12tab(c, m)
@@ -35,6 +35,8 @@ func c12(c *core.Ctx) map[string]interface{} {
 	r12transfer(c)
 	r12skip(c)
 	r12term(c)
+	// the values reported are those of the setup item the request carries (R2.report, shared with C02)
+	r2report(c, driverModel(c, mustFunc(c, pStg, "EstablishPDU")))
 	return nil
 }
 
@@ -323,6 +325,14 @@ func r12transfer(c *core.Ctx) {
 		l := l
 		if strings.HasPrefix(p.Path(l.cond), "("+p.Path(l.phi)+"<call:builtin.len(p0))") {
 			loop = &l
+			continue
+		}
+		// `offset + k <= len(transfer)` / `offset + k < len(transfer)`: a header of k octets must fit
+		if bo, ok := l.cond.(*ssa.BinOp); ok && (bo.Op == token.LEQ || bo.Op == token.LSS) && p.Path(bo.Y) == "call:builtin.len(p0)" {
+			lf := core.Linearize(p, bo.X)
+			if lf.T[p.Path(l.phi)] == 1 && len(lf.T) == 1 && lf.C >= 0 && lf.C <= 4 {
+				loop = &l
+			}
 		}
 	}
 	if loop == nil {
@@ -357,6 +367,13 @@ func r12transfer(c *core.Ctx) {
 		}
 	}
 	c.Check(okStride, R, "stgutg.DecodePDUSessionResourceSetupRequestTransfer:stride", fn.Pos(), "offset += 2 + 1 + 1 + length", "a non-matching IE must be skipped as id(2) + criticality(1) + length(1) + value(length): offset + 4 + transfer[offset+3]")
+	// after the wanted IE the walk ends: the IEs that may follow it (QosFlowSetupRequestList …) can be
+	// longer than 127 octets, and this walker reads one-octet length determinants only
+	if matchBlk != nil && okStride {
+		again := matchBlk == loop.header || core.Reaches(matchBlk, loop.header)
+		c.Check(!again, R, "stgutg.DecodePDUSessionResourceSetupRequestTransfer:stops-at-match", matchBlk.Instrs[0].Pos(), "walk ends at id-UL-NGU-UP-TNLInformation",
+			"after id-UL-NGU-UP-TNLInformation was found the walk goes on over the following IEs with a one-octet length reader: an IE of 128 octets or more after it (a QoS flow list with many flows) is misread and its contents can be taken for IE ids, overwriting the TEID and address already found")
+	}
 	// TEID / address
 	if matchBlk != nil {
 		okT, okA := false, false
@@ -537,7 +554,13 @@ func r12term(c *core.Ctx) {
 		for _, l := range allLoopPhis(fn) {
 			// only index variables compared against a length in the header
 			cs := p.Path(l.cond)
-			if !strings.HasPrefix(cs, "("+p.Path(l.phi)+"<") && !strings.HasPrefix(cs, "(("+p.Path(l.phi)+"+1)<") {
+			isIdx := strings.HasPrefix(cs, "("+p.Path(l.phi)+"<") || strings.HasPrefix(cs, "(("+p.Path(l.phi)+"+1)<")
+			if bo, ok := l.cond.(*ssa.BinOp); ok && !isIdx && (bo.Op == token.LSS || bo.Op == token.LEQ) {
+				// index + k compared against a length
+				lf := core.Linearize(p, bo.X)
+				isIdx = lf.T[p.Path(l.phi)] == 1 && len(lf.T) == 1 && strings.HasPrefix(p.Path(bo.Y), "call:builtin.len(")
+			}
+			if !isIdx {
 				continue
 			}
 			for i, e := range l.phi.Edges {
